@@ -133,15 +133,17 @@ def same_table(a, b):
     return _blocks([_seq(r) for r in _seq(a["rows"])]) == _blocks([_seq(r) for r in _seq(b["rows"])])
 
 
-def table_deviation(t):
-    """Name of the as-built deviation a table entry of an exported state exhibits (or None)."""
+def table_deviation(t, devs=None):
+    """Name of the as-built deviation a table entry of an exported state exhibits (or None).
+    devs: the deviations the graph was exported with (None = any)."""
     if t["loose"]:
         return "StalePgIdCache"
     if same_table(t["pred"], t["ideal"]):
         return None
     if t.get("dirty"):  # a renamed data set whose slice stayed under the old label
         return "RenameKeepsLabel"
-    if t["ideal"]["out"] == "ok" and not _seq(t["ideal"]["rows"]) and t["pred"]["out"] == "raises":
+    if t["ideal"]["out"] == "ok" and not _seq(t["ideal"]["rows"]) and t["pred"]["out"] == "raises" \
+            and (devs is None or "EmptyTableRaises" in devs):
         return "EmptyTableRaises"
     return "TableByLabel"
 
@@ -221,7 +223,7 @@ def compare_state(scene, st, after_reopen=False, findings=None):
                 continue
         if not ok:
             raise Mismatch("table-view", f"table {pg}: got {got_t} expected {pred}")
-        dev = table_deviation(t)
+        dev = table_deviation(t, _seq(st.get("devs")) if "devs" in st else None)
         if dev:
             findings.append((f"asbuilt:{dev}",
                              f"table {pg}: implementation gives {pred['out']} {_seq(pred['rows'])}, the property requires {ideal['out']} {_seq(ideal['rows'])}"))
